@@ -1420,3 +1420,501 @@ parse_harness!(parse_one_field_time_bounded, Time);
 parse_harness!(parse_one_field_timestamp_bounded, Timestamp);
 parse_harness!(parse_one_field_interval_ym_bounded, IntervalYM);
 parse_harness!(parse_one_field_interval_dt_bounded, IntervalDT);
+
+// =========================================================================================
+// C05 / C06 / C18: the parser's field loop, modularly.  The leaf scanners are replaced by logged oracles that
+// return ANY result permitted by their contracts (scan_*_bounded) and consume ANY amount of text, so the text
+// length is unbounded here; pictures of up to PICN symbolic tokens; symbolic clock.  The reference replays the
+// same scanner results and computes the record the property prescribes.
+// =========================================================================================
+const PICN: usize = 3;
+const LOGN: usize = 16;
+const GTXT: usize = 12;
+
+#[derive(Clone, Copy)]
+pub struct LogEntry { pub kind: u8, pub arg: usize, pub ok: bool, pub neg: bool, pub val: i64, pub used: usize }
+const LOG0: LogEntry = LogEntry { kind: 0, arg: 0, ok: false, neg: false, val: 0, used: 0 };
+pub static mut K_LOG: [LogEntry; LOGN] = [LOG0; LOGN];
+pub static mut K_LOG_LEN: usize = 0;
+
+fn log_push(e: LogEntry) {
+    unsafe {
+        if K_LOG_LEN < LOGN { K_LOG[K_LOG_LEN] = e; }
+        K_LOG_LEN += 1;
+    }
+}
+
+fn pow10(n: usize) -> i64 {
+    let mut r: i64 = 1;
+    let mut i = 0;
+    while i < n { r *= 10; i += 1; }
+    r
+}
+
+fn scan_err<X>() -> Result<X> { Err(Error::ParseError(String::new())) }
+
+/// contract of parse_number: Err if the input is empty (or has no digit); Ok: a sign and 1..=max_len digits consumed
+pub fn parse_number_oracle(input: &[u8], max_len: usize) -> Result<(bool, i32, &[u8])> {
+    assert!(max_len >= 1 && max_len <= 9);
+    let ok: bool = kani::any();
+    let neg: bool = kani::any();
+    let val: i32 = kani::any();
+    let used: usize = kani::any();
+    kani::assume(used >= 1 && used <= max_len + 1 && used <= input.len());
+    kani::assume((val as i64) < pow10(max_len) && (val as i64) > -pow10(max_len));
+    kani::assume(if neg { val <= 0 } else { val >= 0 });
+    kani::assume(!(neg && used < 2));
+    let ok = ok && !input.is_empty();
+    log_push(LogEntry { kind: 1, arg: max_len, ok, neg, val: val as i64, used });
+    if ok { Ok((neg, val, &input[used..])) } else { scan_err() }
+}
+
+pub fn parse_fraction_oracle(s: &[u8], max_len: usize) -> Result<(u32, &[u8])> {
+    assert!(max_len >= 1 && max_len <= 9);
+    if s.is_empty() { return Ok((0, s)); }
+    if s[0] == b'-' { return scan_err(); }
+    let usec: u32 = kani::any();
+    let used: usize = kani::any();
+    kani::assume(used <= max_len && used <= s.len());
+    kani::assume(usec <= if max_len >= 7 { 1_000_000 } else { 999_999 });
+    kani::assume(!(used == 0 && usec != 0));
+    log_push(LogEntry { kind: 2, arg: max_len, ok: true, neg: false, val: usec as i64, used });
+    Ok((usec, &s[used..]))
+}
+
+pub fn parse_ampm_oracle<'a>(s: &'a [u8], style: &'a AmPmStyle) -> Result<(Option<AmPm>, &'a [u8])> {
+    if s.is_empty() { return Ok((None, s)); }
+    let dotted = *style == AmPmStyle::UpperDot || *style == AmPmStyle::LowerDot;
+    let used = if dotted { 4 } else { 2 };
+    let ok: bool = kani::any();
+    let pm: bool = kani::any();
+    let ok = ok && s.len() >= used;
+    log_push(LogEntry { kind: 3, arg: used, ok, neg: pm, val: 0, used });
+    if ok { Ok((Some(if pm { AmPm::Pm } else { AmPm::Am }), &s[used..])) } else { scan_err() }
+}
+
+pub fn parse_month_name_oracle(s: &[u8]) -> Result<(Month, &[u8])> {
+    let ok: bool = kani::any();
+    let m: usize = kani::any();
+    let used: usize = kani::any();
+    kani::assume(m >= 1 && m <= 12 && used >= 3 && used <= 9);
+    let ok = ok && used <= s.len();
+    log_push(LogEntry { kind: 4, arg: 0, ok, neg: false, val: m as i64, used });
+    if ok { Ok((Month::from(m), &s[used..])) } else { scan_err() }
+}
+
+pub fn parse_week_day_name_oracle(s: &[u8], _style: NameStyle) -> Result<(WeekDay, &[u8])> {
+    let ok: bool = kani::any();
+    let d: usize = kani::any();
+    let used: usize = kani::any();
+    kani::assume(d >= 1 && d <= 7 && used >= 3 && used <= 9);
+    let ok = ok && used <= s.len();
+    log_push(LogEntry { kind: 5, arg: 0, ok, neg: false, val: d as i64, used });
+    if ok { Ok((WeekDay::from(d), &s[used..])) } else { scan_err() }
+}
+
+pub fn parse_week_day_number_oracle(s: &[u8]) -> Result<(WeekDay, &[u8])> {
+    let ok: bool = kani::any();
+    let d: usize = kani::any();
+    kani::assume(d >= 1 && d <= 7);
+    let ok = ok && !s.is_empty();
+    log_push(LogEntry { kind: 6, arg: 0, ok, neg: false, val: d as i64, used: 1 });
+    if ok { Ok((WeekDay::from(d), &s[1..])) } else { scan_err() }
+}
+
+pub fn eat_whitespaces_oracle(s: &[u8]) -> &[u8] {
+    let k: usize = kani::any();
+    kani::assume(k <= s.len());
+    log_push(LogEntry { kind: 7, arg: 0, ok: true, neg: false, val: 0, used: k });
+    &s[k..]
+}
+
+struct Replay { at: usize, bad: bool }
+impl Replay {
+    fn next(&mut self, kind: u8) -> LogEntry {
+        let n = unsafe { K_LOG_LEN };
+        if self.at >= n || self.at >= LOGN { self.bad = true; return LOG0; }
+        let e = unsafe { K_LOG[self.at] };
+        self.at += 1;
+        if e.kind != kind { self.bad = true; }
+        e
+    }
+}
+
+fn adjust12(h: u32, pm: bool) -> u32 {
+    if pm { if h == 12 { 12 } else { h + 12 } } else { if h == 12 { 0 } else { h } }
+}
+
+/// what the property prescribes for a picture `fields[..n]`, given the scanners' results in the log
+fn ref_glue<T: DateTimeFormat>(fields: &[Field; PICN], n: usize, text: &[u8], cy: i64, cm: u32, rp: &mut Replay) -> Option<RefRec> {
+    let date = T::HAS_DATE;
+    let time = T::HAS_TIME;
+    let ym = T::IS_INTERVAL_YM;
+    let dtv = T::IS_INTERVAL_DT;
+    let len = text.len();
+    let mut r = RefRec { year: 1, month: 0, day: 1, hour: 0, minute: 0, sec: 0, usec: 0, negative: false };
+    let mut pos = 0usize;
+    let (mut year_set, mut month_set, mut day_set, mut min_set, mut sec_set, mut frac_set) = (false, false, false, false, false, false);
+    let mut hour_set: Option<bool> = None;   // Some(true): 24-hour field seen, Some(false): 12-hour field seen
+    let mut ampm: Option<bool> = None;       // Some(pm)
+    let mut ampm_seen = false;
+    let mut dow: Option<u32> = None;
+    let mut doy: Option<u32> = None;
+    let mut i = 0;
+    while i < n {
+        pos += rp.next(7).used;
+        let empty = pos >= len;
+        match &fields[i] {
+            Field::Invalid => return None,
+            Field::Blank(_) => {}
+            Field::Hyphen | Field::Colon | Field::Dot => {
+                let c = match &fields[i] { Field::Hyphen => b'-', Field::Colon => b':', _ => b'.' };
+                if !empty { if text[pos] == c { pos += 1; } else { return None; } }
+            }
+            Field::Slash | Field::Backslash | Field::Comma | Field::Semicolon | Field::T => {
+                let c = match &fields[i] { Field::Slash => b'/', Field::Backslash => b'\\', Field::Comma => b',', Field::Semicolon => b';', _ => b'T' };
+                if !empty && text[pos] == c { pos += 1; } else { return None; }
+            }
+            Field::Year(k) => {
+                if !(date || ym) || year_set { return None; }
+                let k = *k as usize;
+                let max = if ym { 9 } else if k == 2 { 4 } else { k };
+                let e = rp.next(1);
+                if e.arg != max { rp.bad = true; }
+                if !e.ok { return None; }
+                let y = if ym || k == 4 { e.val } else if k == 2 { if e.used > 2 { e.val } else { cy - cy % 100 + e.val } }
+                        else if k == 1 { cy - cy % 10 + e.val } else { cy - cy % 1000 + e.val };
+                if e.neg && date { return None; }
+                r.negative = e.neg;
+                r.year = y;
+                year_set = true;
+                pos += e.used;
+            }
+            Field::Month => {
+                if !(date || ym) || month_set { return None; }
+                let e = rp.next(1);
+                if e.arg != 2 { rp.bad = true; }
+                if e.ok {
+                    if e.neg { return None; }
+                    r.month = e.val as u32;
+                    pos += e.used;
+                } else {
+                    let e2 = rp.next(4);
+                    if !e2.ok { return None; }
+                    r.month = e2.val as u32;
+                    pos += e2.used;
+                }
+                month_set = true;
+            }
+            Field::Day => {
+                if !(date || dtv) || day_set { return None; }
+                let e = rp.next(1);
+                if e.arg != (if dtv { 9 } else { 2 }) { rp.bad = true; }
+                if !e.ok { return None; }
+                if date && e.neg { return None; }
+                r.day = e.val.unsigned_abs() as u32;
+                r.negative = e.neg;
+                day_set = true;
+                pos += e.used;
+            }
+            Field::Hour24 | Field::Minute | Field::Second => {
+                if !time { return None; }
+                let dup = match &fields[i] { Field::Hour24 => hour_set.is_some(), Field::Minute => min_set, _ => sec_set };
+                if dup { return None; }
+                if let Field::Hour24 = &fields[i] { if ampm.is_some() { return None; } }
+                let v = if !dtv && empty { 0 } else {
+                    let e = rp.next(1);
+                    if e.arg != 2 { rp.bad = true; }
+                    if !e.ok || e.neg { return None; }
+                    pos += e.used;
+                    e.val as u32
+                };
+                match &fields[i] { Field::Hour24 => { r.hour = v; hour_set = Some(true); } Field::Minute => { r.minute = v; min_set = true; } _ => { r.sec = v; sec_set = true; } }
+            }
+            Field::Hour12 => {
+                if !(time && !dtv) || hour_set.is_some() { return None; }
+                let v = if empty { 12 } else {
+                    let e = rp.next(1);
+                    if e.arg != 2 { rp.bad = true; }
+                    if !e.ok || e.neg { return None; }
+                    pos += e.used;
+                    e.val
+                };
+                if v < 1 || v > 12 { return None; }
+                r.hour = match ampm { Some(pm) => adjust12(v as u32, pm), None => v as u32 };
+                hour_set = Some(false);
+            }
+            Field::Fraction(p) => {
+                if !T::HAS_FRACTION || frac_set { return None; }
+                if !empty {
+                    if text[pos] == b'-' { return None; }
+                    let e = rp.next(2);
+                    if e.arg != p.unwrap_or(9) as usize { rp.bad = true; }
+                    r.usec = e.val as u32;
+                    pos += e.used;
+                }
+                frac_set = true;
+            }
+            Field::AmPm(_) => {
+                if !(time && !dtv) || ampm.is_some() { return None; }
+                if hour_set == Some(true) { return None; }
+                if !empty {
+                    let e = rp.next(3);
+                    if !e.ok { return None; }
+                    ampm = Some(e.neg);
+                    r.hour = adjust12(r.hour, e.neg);
+                    pos += e.used;
+                }
+                ampm_seen = true;
+            }
+            Field::MonthName(_) => {
+                if !date || month_set { return None; }
+                let e = rp.next(4);
+                if !e.ok { return None; }
+                r.month = e.val as u32;
+                month_set = true;
+                pos += e.used;
+            }
+            Field::DayName(_) | Field::DayOfWeek => {
+                if !date || dow.is_some() { return None; }
+                let e = rp.next(if let Field::DayOfWeek = &fields[i] { 6 } else { 5 });
+                if !e.ok { return None; }
+                dow = Some(e.val as u32);
+                pos += e.used;
+            }
+            Field::DayOfYear => {
+                if !date || doy.is_some() { return None; }
+                let e = rp.next(1);
+                if e.arg != 3 { rp.bad = true; }
+                if !e.ok || e.neg { return None; }
+                doy = Some(e.val as u32);
+                pos += e.used;
+            }
+            Field::WeekOfMonth | Field::WeekOfYear => return None,
+        }
+        i += 1;
+    }
+    pos += rp.next(7).used;
+    if pos < len { return None; }
+    if date {
+        if !year_set { r.year = cy; }
+        if !month_set { r.month = cm; }
+    }
+    if let Some(d) = doy {
+        let leap = k_leap(r.year);
+        if d == 0 || d > (if leap { 366 } else { 365 }) { return None; }
+        let mut m = 1u32;
+        while m < 12 && (k_cum(m as i64 + 1) + (if m + 1 > 2 && leap { 1 } else { 0 })) < d as i64 { m += 1; }
+        let dd = (d as i64 - k_cum(m as i64) - (if m > 2 && leap { 1 } else { 0 })) as u32;
+        if month_set && m != r.month { return None; }
+        if day_set && dd != r.day { return None; }
+        r.month = m;
+        r.day = dd;
+    }
+    if let Some(w) = dow {
+        if !k_date_ok(r.year, r.month as i64, r.day as i64) { return None; }
+        if k_wd(k_dn(r.year, r.month as i64, r.day as i64)) != w as i64 { return None; }
+    }
+    Some(r)
+}
+
+fn parse_glue_check<T: DateTimeFormat>() {
+    let c = crate::kverif::set_any_clock(false);
+    let n: usize = kani::any();
+    kani::assume(n >= 1 && n <= PICN);
+    let fs: [Field; PICN] = [any_field(), any_field(), any_field()];
+    let bytes: [u8; GTXT] = kani::any();
+    let len: usize = kani::any();
+    kani::assume(len <= GTXT);
+    let mut i = 0;
+    while i < GTXT { kani::assume(bytes[i] < 128); i += 1; }
+    let text = core::str::from_utf8(&bytes[..len]).unwrap();
+    // the year the scanners may hand back is bounded by the scanner contract; the day-of-year table needs a sane year
+    let mut fields = StackVec::new();
+    i = 0;
+    while i < n {
+        // (Field is not Copy: rebuild the same token for the formatter)
+        fields.push(match &fs[i] {
+            Field::Blank(k) => Field::Blank(*k), Field::Hyphen => Field::Hyphen, Field::Colon => Field::Colon, Field::Slash => Field::Slash,
+            Field::Backslash => Field::Backslash, Field::Comma => Field::Comma, Field::Dot => Field::Dot, Field::Semicolon => Field::Semicolon, Field::T => Field::T,
+            Field::Year(k) => Field::Year(*k), Field::Month => Field::Month, Field::Day => Field::Day, Field::DayName(s) => Field::DayName(*s),
+            Field::MonthName(s) => Field::MonthName(*s), Field::Hour24 => Field::Hour24, Field::Hour12 => Field::Hour12, Field::Minute => Field::Minute,
+            Field::Second => Field::Second, Field::Fraction(p) => Field::Fraction(*p),
+            Field::AmPm(s) => Field::AmPm(match s { AmPmStyle::Upper => AmPmStyle::Upper, AmPmStyle::Lower => AmPmStyle::Lower, AmPmStyle::UpperDot => AmPmStyle::UpperDot, AmPmStyle::LowerDot => AmPmStyle::LowerDot }),
+            Field::DayOfWeek => Field::DayOfWeek, Field::DayOfYear => Field::DayOfYear, Field::WeekOfMonth => Field::WeekOfMonth, Field::WeekOfYear => Field::WeekOfYear,
+            Field::Invalid => Field::Invalid,
+        });
+        i += 1;
+    }
+    let fmt = Formatter { fields, format_exact: false };
+    unsafe { K_LOG_LEN = 0; }
+    let got: Result<Probe<T>> = fmt.parse_internal::<&str, Probe<T>, false>(text);
+    let mut rp = Replay { at: 0, bad: false };
+    let want = ref_glue::<T>(&fs, n, &bytes[..len], c[0] as i64, c[1], &mut rp);
+    match want {
+        None => assert!(got.is_err()),
+        Some(r) => {
+            assert!(got.is_ok());
+            assert!(!rp.bad);
+            let g = got.unwrap();
+            assert!(g.year as i64 == r.year && g.month == r.month && g.day == r.day);
+            assert!(g.hour == r.hour && g.minute == r.minute && g.sec == r.sec && g.usec == r.usec);
+            assert!(g.negative == r.negative);
+        }
+    }
+}
+
+macro_rules! parse_glue_harness {
+    ($name:ident, $t:ty) => {
+        #[kani::proof]
+        #[kani::unwind(13)]
+        #[kani::stub(crate::util::try_format, stub_try_format)]
+        #[kani::stub(crate::common::date2julian, crate::kverif::date2julian_by_contract)]
+        #[kani::stub(chrono::Local::now, crate::kverif::stub_now)]
+        #[kani::stub(parse_number, parse_number_oracle)]
+        #[kani::stub(parse_fraction, parse_fraction_oracle)]
+        #[kani::stub(parse_ampm, parse_ampm_oracle)]
+        #[kani::stub(parse_month_name, parse_month_name_oracle)]
+        #[kani::stub(parse_week_day_name, parse_week_day_name_oracle)]
+        #[kani::stub(parse_week_day_number, parse_week_day_number_oracle)]
+        #[kani::stub(eat_whitespaces, eat_whitespaces_oracle)]
+        fn $name() { parse_glue_check::<$t>(); }
+    };
+}
+parse_glue_harness!(parse_glue_date_bounded, Date);
+parse_glue_harness!(parse_glue_time_bounded, Time);
+parse_glue_harness!(parse_glue_timestamp_bounded, Timestamp);
+parse_glue_harness!(parse_glue_interval_ym_bounded, IntervalYM);
+parse_glue_harness!(parse_glue_interval_dt_bounded, IntervalDT);
+
+// =========================================================================================
+// C06: every token is lossless on its own - the scanner reads back exactly what the renderer wrote,
+// consuming all of it (fixed-width renderings fill the scanner's maximum width, so adjacent fields cannot bleed)
+// =========================================================================================
+fn reads_back(s: &[u8], max_len: usize, v: i32) {
+    assert!(s.len() <= max_len);
+    let r = parse_number(s, max_len);
+    assert!(r.is_ok());
+    let (neg, n, rem) = r.unwrap();
+    assert!(!neg && n == v && rem.is_empty());
+}
+
+#[kani::proof]
+#[kani::unwind(6)]
+fn token_roundtrip_two_digit() {
+    let mut dt = NaiveDateTime::new();
+    let v: u32 = kani::any();
+    kani::assume(v <= 59);
+    if v >= 1 && v <= 12 { dt.month = v; reads_back(dt.month_str().as_bytes(), 2, v as i32); assert!(dt.month_str().len() == 2); }
+    if v >= 1 && v <= 31 { dt.day = v; reads_back(dt.day_str().as_bytes(), 2, v as i32); assert!(dt.day_str().len() == 2); }
+    if v <= 23 {
+        dt.hour = v;
+        reads_back(dt.hour24_str().as_bytes(), 2, v as i32);
+        assert!(dt.hour24_str().len() == 2);
+        // 12-hour text + meridian gives the hour back
+        let h12v = dt.hour12();
+        reads_back(dt.hour12_str().as_bytes(), 2, h12v as i32);
+        let mut back = NaiveDateTime::new();
+        back.hour = h12v;
+        back.ampm = Some(if v < 12 { AmPm::Am } else { AmPm::Pm });
+        back.adjust_hour12();
+        assert!(back.hour == v);
+    }
+    dt.minute = v;
+    dt.sec = v;
+    reads_back(dt.minute_str().as_bytes(), 2, v as i32);
+    reads_back(dt.second_str().as_bytes(), 2, v as i32);
+    assert!(dt.minute_str().len() == 2 && dt.second_str().len() == 2);
+}
+
+#[kani::proof]
+#[kani::unwind(14)]
+fn token_roundtrip_month_names() {
+    let st = any_style();
+    let m: usize = kani::any();
+    kani::assume(m >= 1 && m <= 12);
+    let mut dt = NaiveDateTime::new();
+    dt.month = m as u32;
+    let r = parse_month_name(dt.month_name(st).as_bytes());
+    assert!(r.is_ok());
+    let (mon, rem) = r.unwrap();
+    assert!(mon as usize == m && rem.is_empty());
+}
+
+#[kani::proof]
+#[kani::unwind(14)]
+fn token_roundtrip_weekday_names() {
+    let st = any_style();
+    let m: usize = kani::any();
+    kani::assume(m >= 1 && m <= 7);
+    let w = WeekDay::from(m);
+    let r2 = parse_week_day_name(w.name(st).as_bytes(), st);
+    assert!(r2.is_ok());
+    let (d, rem2) = r2.unwrap();
+    assert!(d as usize == m && rem2.is_empty());
+    let r3 = parse_week_day_number(w.num_str().as_bytes());
+    assert!(r3.is_ok() && r3.unwrap().0 as usize == m);
+}
+
+#[kani::proof]
+#[kani::unwind(8)]
+fn token_roundtrip_ampm() {
+    let styles = [AmPmStyle::Upper, AmPmStyle::Lower, AmPmStyle::UpperDot, AmPmStyle::LowerDot];
+    let mut i = 0;
+    while i < 4 {
+        let h: u32 = kani::any();
+        kani::assume(h < 24);
+        let txt = styles[i].format(h).as_bytes();
+        let r = parse_ampm(txt, &styles[i]);
+        assert!(r.is_ok());
+        let (v, rem) = r.unwrap();
+        assert!(rem.is_empty());
+        match v { Some(AmPm::Am) => assert!(h < 12), Some(AmPm::Pm) => assert!(h >= 12), None => assert!(false) }
+        i += 1;
+    }
+}
+
+/// DDD text reads back as the day of year, and the day of year maps back to (month, day)
+#[kani::proof]
+#[kani::unwind(6)]
+fn token_roundtrip_day_of_year() {
+    let leap: bool = kani::any();
+    let year: i64 = if leap { 2024 } else { 2023 };
+    let m: u32 = kani::any();
+    let d: u32 = kani::any();
+    kani::assume(m >= 1 && m <= 12 && d >= 1 && d as i64 <= k_mdays(year, m as i64));
+    let mut dt = NaiveDateTime::new();
+    dt.year = year as i32;
+    dt.month = m;
+    dt.day = d;
+    let s = dt.day_of_year_str().as_bytes();
+    assert!(s.len() == 3);
+    let r = parse_number(s, 3);
+    assert!(r.is_ok());
+    let (neg, doy, rem) = r.unwrap();
+    assert!(!neg && rem.is_empty());
+    let (m2, d2) = the_month_day_of_days(doy as u32, leap);
+    assert!(m2 == m && d2 == d);
+}
+
+/// year and fraction digits (write_u32) read back: YYYY exactly, FF6..FF9 losslessly
+#[kani::proof]
+#[kani::unwind(13)]
+#[kani::stub(crate::util::try_format, stub_try_format)]
+fn token_roundtrip_year_fraction() {
+    let y: u32 = kani::any();
+    kani::assume(y >= 1 && y <= 9999);
+    let mut w = Sink::new();
+    assert!(write_u32(&mut w, y, 4).is_ok());
+    assert!(w.len == 4);
+    reads_back(&w.buf[..4], 4, y as i32);
+    let us: u32 = kani::any();
+    kani::assume(us < 1_000_000);
+    let mut w2 = Sink::new();
+    assert!(write_u32(&mut w2, us, 6).is_ok());
+    assert!(w2.len == 6);
+    let r = parse_fraction(&w2.buf[..6], 6);
+    assert!(r.is_ok());
+    let (back, rem) = r.unwrap();
+    assert!(back == us && rem.is_empty());
+}
